@@ -196,3 +196,104 @@ package cty
 //@   ensures[C05] rest: (and (= (cty.refinementNumber.min R) mn0) (= (cty.refinementNumber.minInc R) (cty.refinementNumber.minInc R0)) (= (rn_null R) (rn_null R0)))
 //@   ensures[C05] narrows: ghost ((ci Int) (cr Real)) :: (=> (and (<= (- 1) ci) (<= ci 1) (not dyn) (is_known max) (or inclusive (not (= max $G<cty.PositiveInfinity>))) (=> (not (= mx0 nilval)) (eq_exact max mx0))) (= (rn_hi_ok R ci cr) (and (rn_hi_ok R0 ci cr) (ite inclusive (x_le ci cr (num_i max) (num_r max)) (x_lt ci cr (num_i max) (num_r max))))))
 //@   ensures[C05] inv: (=> isn (rn_ok R))
+//
+// Refine: a fresh builder whose work-in-progress object is a copy of the value's refinement, or the
+// unconstrained refinement of the kind that the type supports; DynamicVal gets no refinement object.
+//@ func (cty.Value).Refine
+//@   tags C05 C20
+//@   requires (wf_deep v)
+//@   fresh result
+//@   fresh_obj cty.refinementNumber (wip_num (cty.RefinementBuilder.wip (select $H<cty.RefinementBuilder> result)))
+//@   fresh_obj cty.refinementString (wip_str (cty.RefinementBuilder.wip (select $H<cty.RefinementBuilder> result)))
+//@   fresh_obj cty.refinementCollection (wip_coll (cty.RefinementBuilder.wip (select $H<cty.RefinementBuilder> result)))
+//@   fresh_obj cty.refinementNullable (wip_nul (cty.RefinementBuilder.wip (select $H<cty.RefinementBuilder> result)))
+//@   fresh_obj MapC<Any~Unit> (ite (= (cty.RefinementBuilder.marks (select $H<cty.RefinementBuilder> result)) 0) (- 1) (cty.RefinementBuilder.marks (select $H<cty.RefinementBuilder> result)))
+//@   let B (select $H<cty.RefinementBuilder> result)
+//@   let w (cty.RefinementBuilder.wip B)
+//@   let u (unmark v)
+//@   let t (vty v)
+//@   let refined (and (not (is_known v)) (not (= (rfn_of v) nil.Any)))
+//@   let dynv (and (not refined) (is_dyn_ty t) (not (is_known v)))
+//@   ensures[C05] nonnil: (and (not (= result 0)) (not (= (cty.RefinementBuilder.marks B) (- 1))))
+//@   ensures[C05] orig: (= (cty.RefinementBuilder.orig B) (ite dynv $G<cty.DynamicVal> u))
+//@   ensures[C05] marks: (ite (is_marked v) (and (not (= (cty.RefinementBuilder.marks B) 0)) (MapC<Any~Unit>.ok ($at<MapC<Any~Unit>> (cty.RefinementBuilder.marks B))) (= (MapC<Any~Unit>.dom ($at<MapC<Any~Unit>> (cty.RefinementBuilder.marks B))) (marks_of v))) (= (cty.RefinementBuilder.marks B) 0))
+//@   ensures[C05] dynamic: (=> dynv (= w nil.Any))
+//@   ensures[C05] copied_num: (=> (and refined ((_ is box<*cty.refinementNumber>) (rfn_of v))) (and ((_ is box<*cty.refinementNumber>) w) (not (= (wip_num w) 0)) (= ($at<cty.refinementNumber> (wip_num w)) (rnum_at (wip_num (rfn_of v))))))
+//@   ensures[C05] copied_coll: (=> (and refined ((_ is box<*cty.refinementCollection>) (rfn_of v))) (and ((_ is box<*cty.refinementCollection>) w) (not (= (wip_coll w) 0)) (= ($at<cty.refinementCollection> (wip_coll w)) (rcoll_at (wip_coll (rfn_of v))))))
+//@   ensures[C05] copied_str: (=> (and refined ((_ is box<*cty.refinementString>) (rfn_of v))) (and ((_ is box<*cty.refinementString>) w) (not (= (wip_str w) 0)) (= ($at<cty.refinementString> (wip_str w)) (rstr_at (wip_str (rfn_of v))))))
+//@   ensures[C05] copied_nul: (=> (and refined ((_ is box<*cty.refinementNullable>) (rfn_of v))) (and ((_ is box<*cty.refinementNullable>) w) (not (= (wip_nul w) 0)) (= ($at<cty.refinementNullable> (wip_nul w)) (rnul_at (wip_nul (rfn_of v))))))
+//@   ensures[C05] fresh_num: (=> (and (not refined) (is_number_ty t)) (and ((_ is box<*cty.refinementNumber>) w) (not (= (wip_num w) 0)) (= ($at<cty.refinementNumber> (wip_num w)) (mk.cty.refinementNumber (mk.cty.refinementNullable 0) nilval nilval false false))))
+//@   ensures[C05] fresh_str: (=> (and (not refined) (is_string_ty t)) (and ((_ is box<*cty.refinementString>) w) (not (= (wip_str w) 0)) (= ($at<cty.refinementString> (wip_str w)) (mk.cty.refinementString (mk.cty.refinementNullable 0) ""))))
+//@   ensures[C05] fresh_coll: (=> (and (not refined) (is_coll_ty t)) (and ((_ is box<*cty.refinementCollection>) w) (not (= (wip_coll w) 0)) (= ($at<cty.refinementCollection> (wip_coll w)) (mk.cty.refinementCollection (mk.cty.refinementNullable 0) 0 9223372036854775807))))
+//@   ensures[C05] fresh_nul: (=> (and (not refined) (or (is_bool_ty t) (is_obj_ty t) (is_tuple_ty t) (is_capsule_ty t))) (and ((_ is box<*cty.refinementNullable>) w) (not (= (wip_nul w) 0)) (= ($at<cty.refinementNullable> (wip_nul w)) (mk.cty.refinementNullable 0))))
+//@   ensures[C05] dyn_null: (=> (and (is_dyn_ty t) (is_known v)) (and ((_ is box<*cty.refinementNullable>) w) (not (= (wip_nul w) 0)) (= ($at<cty.refinementNullable> (wip_nul w)) (mk.cty.refinementNullable 84))))
+//
+// NewValue: the original value when it was known or DynamicVal; otherwise an unknown value of the same
+// type whose refinement object is the builder's work-in-progress object, or a known value only in the
+// documented collapse cases (null; equal inclusive number bounds; equal length bounds). The builder's
+// marks are re-applied.
+//@ func (*cty.RefinementBuilder).NewValue
+//@   tags C05 C04
+//@   requires (not (= b 0))
+//@   let o (b_orig b)
+//@   let w (b_wip b)
+//@   let dyn (= o $G<cty.DynamicVal>)
+//@   let mk (b_marks b)
+//@   let same (or (is_known o) dyn)
+//@   let n0 (ite ((_ is box<*cty.refinementNumber>) w) (rn_null ($at<cty.refinementNumber> (wip_num w))) (ite ((_ is box<*cty.refinementString>) w) (rs_null ($at<cty.refinementString> (wip_str w))) (ite ((_ is box<*cty.refinementCollection>) w) (rc_null ($at<cty.refinementCollection> (wip_coll w))) (cty.refinementNullable.isNull ($at<cty.refinementNullable> (wip_nul w))))))
+//@   let RN ($at<cty.refinementNumber> (wip_num w))
+//@   let RC ($at<cty.refinementCollection> (wip_coll w))
+//@   requires (and (wf_deep o) (not (is_marked o)))
+//@   requires (or (= mk 0) (MapC<Any~Unit>.ok (select F.MapC<Any~Unit> mk)))
+//@   requires (=> (not same) (and (not (= w nil.Any)) (not (= (rfn_kind w) 0)) (=> ((_ is box<*cty.refinementNumber>) w) (and (not (= (wip_num w) 0)) (rn_ok RN) (is_number_ty (vty o)))) (=> ((_ is box<*cty.refinementCollection>) w) (and (not (= (wip_coll w) 0)) (rc_ok RC) (is_coll_ty (vty o)) (wf_ty (vty o)))) (=> ((_ is box<*cty.refinementString>) w) (and (not (= (wip_str w) 0)) (is_string_ty (vty o)) (tri_ok n0))) (=> ((_ is box<*cty.refinementNullable>) w) (and (not (= (wip_nul w) 0)) (not (is_dyn_ty (vty o))) (tri_ok n0)))))
+//@   ensures[C05] type: (= (vty result) (vty o))
+//@   ensures[C04,C05] marks: (forall ((k Any)) (! (= (select (marks_of result) k) (and (not (= mk 0)) (select (fmarks mk) k))) :pattern ((select (marks_of result) k))))
+//@   ensures[C05] known: (=> same (= (unmark result) o))
+//@   ensures[C05] null: (=> (and (not same) (= n0 84)) (and (is_known result) (is_null result)))
+//@   ensures[C05] notnull: (=> (and (not same) (= n0 70)) (not (is_null result)))
+//@   ensures[C05] unknown: (=> (and (not same) (not (is_known result))) (and (not (= n0 84)) (= (rfn_of result) w)))
+//@   ensures[C05] collapse_num: (=> (and (not same) (is_known result) (not (is_null result)) ((_ is box<*cty.refinementNumber>) w)) (and (= n0 70) (cty.refinementNumber.minInc RN) (cty.refinementNumber.maxInc RN) (= (unmark result) (cty.refinementNumber.min RN)) (not (= (cty.refinementNumber.max RN) nilval)) (num_eq (cty.refinementNumber.min RN) (cty.refinementNumber.max RN))))
+//@   ensures[C05] collapse_coll: (=> (and (not same) (is_known result) (not (is_null result)) ((_ is box<*cty.refinementCollection>) w)) (and (= n0 70) (= (cty.refinementCollection.minLen RC) (cty.refinementCollection.maxLen RC))))
+//@   ensures[C05] collapse_only: (=> (and (not same) (is_known result) (not (is_null result))) (or ((_ is box<*cty.refinementNumber>) w) ((_ is box<*cty.refinementCollection>) w)))
+//@   ensures[C06] wfm: (wf_marks result)
+//@   ensures[C04] nomarks: (=> (= mk 0) (not (is_marked result)))
+//@   ensures[C06] wf: (=> (or same (not (is_known result)) (is_null result) ((_ is box<*cty.refinementNumber>) w)) (wf_deep result))
+//@   loop 1 invariant (forall ((j Int)) (! (=> (and (trig j) (<= 0 j) (< j $i)) (= (hval_at $H<Arr<cty.Value>> elems j) unk)) :pattern ((trig j))))
+//
+// RefineNotNull = Refine().NotNull().NewValue(): same type and marks, never null, a known value is
+// returned as it is, an unknown value stays unknown unless its refinement collapses.
+//@ func (cty.Value).RefineNotNull
+//@   tags C05 C01
+//@   requires (wf_deep v)
+//@   let refined (and (not (is_known v)) (not (= (rfn_of v) nil.Any)))
+//@   panics[C05] (or (and (is_known v) (is_null v)) (and refined (= (rfn_null (rfn_of v)) 84)))
+//@   ensures[C05] type: (= (vty result) (vty v))
+//@   ensures[C04,C05] marks: (forall ((k Any)) (! (= (select (marks_of result) k) (select (marks_of v) k)) :pattern ((select (marks_of result) k))))
+//@   ensures[C05] known: (=> (is_known v) (and (= (unmark result) (unmark v)) (=> (not (is_marked v)) (= result v))))
+//@   ensures[C05,C01] notnull: (not (is_null result))
+//@   ensures[C05] dynamic: (=> (and (is_dyn_ty (vty v)) (not (is_known v))) (= (unmark result) $G<cty.DynamicVal>))
+//@   ensures[C05] stays_unknown: (=> (and (not (is_known v)) (not ((_ is box<*cty.refinementNumber>) (rfn_of v))) (not ((_ is box<*cty.refinementCollection>) (rfn_of v))) (not (is_coll_ty (vty v))) (not (is_number_ty (vty v)))) (not (is_known result)))
+//@   ensures[C06] wfm: (wf_marks result)
+//@   ensures[C04] nomarks: (=> (not (is_marked v)) (not (is_marked result)))
+//@   ensures[C06] wf: (=> (and (not ((_ is box<*cty.refinementCollection>) (rfn_of v))) (not (and (is_coll_ty (vty v)) (not (is_known v))))) (wf_deep result))
+//
+// NumberRangeInclusive = NumberRangeLowerBound(min, true).NumberRangeUpperBound(max, true)
+//@ func (*cty.RefinementBuilder).NumberRangeInclusive
+//@   tags C05 C20
+//@   requires (not (= b 0))
+//@   requires (and (wf_deep (b_orig b)) (not (is_marked (b_orig b))) (wf_deep min) (not (is_marked min)) (wf_deep max) (not (is_marked max)))
+//@   let o (b_orig b)
+//@   let w (b_wip b)
+//@   let p (wip_num w)
+//@   let R0 (old ($at<cty.refinementNumber> p))
+//@   let R ($at<cty.refinementNumber> p)
+//@   let dyn (= o $G<cty.DynamicVal>)
+//@   let isn ((_ is box<*cty.refinementNumber>) w)
+//@   requires (=> isn (and (not (= p 0)) (rn_ok ($at<cty.refinementNumber> p)) (is_number_ty (vty o))))
+//@   panics_may[C05] (not dyn)
+//@   rejects[C05] unsupported: (and (not dyn) (or (= w nil.Any) (not isn)))
+//@   writes cty.refinementNumber p
+//@   ensures (= result b)
+//@   ensures[C05] dynamic: (=> dyn (= R R0))
+//@   ensures[C05] null_kept: (= (rn_null R) (rn_null R0))
+//@   ensures[C05] inv: (=> isn (rn_ok R))
